@@ -51,6 +51,66 @@ CURATED = [
 ]
 
 
+# constructs outside the spec grammar: (source, value builder).  Each value builder returns (value to build, function comparing the
+# parsed object with it); symmetry is the whole obligation, so no reference semantics is needed.
+def _v_int(lo, hi):
+    return lambda ctx: ctx.int("v", lo, hi)
+
+
+def _v_bytes(n):
+    return lambda ctx: ctx.bytes("v", n)
+
+
+def _v_dict(**fields):
+    return lambda ctx: {k: f(_Named(ctx, k)) for k, f in fields.items()}
+
+
+def _v_list(*items):
+    return lambda ctx: [f(_Named(ctx, str(i))) for i, f in enumerate(items)]
+
+
+def _v_bits(counts):
+    return lambda ctx: __import__("symx.values", fromlist=["mkbytes"]).mkbytes([ctx.int("bit%d" % i, 0, 1) for i in range(ctx.choice("nbits", counts))])
+
+
+class _Named:
+    """prefixes the names of nested symbolic inputs"""
+
+    def __init__(self, ctx, prefix):
+        self.ctx, self.prefix = ctx, prefix
+
+    def int(self, name, lo, hi):
+        return self.ctx.int(self.prefix + "." + name, lo, hi)
+
+    def bytes(self, name, n):
+        return self.ctx.bytes(self.prefix + "." + name, n)
+
+    def choice(self, name, options):
+        return self.ctx.choice(self.prefix + "." + name, options)
+
+
+EXTRA = [
+    # byte transforms around value fields (each amount class: bit shift, whole bytes, both; groups 1..4)
+    ("ProcessRotateLeft(8, 4, Int32ub)", _v_int(0, 2 ** 32 - 1)), ("ProcessRotateLeft(16, 3, Bytes(3))", _v_bytes(3)), ("ProcessRotateLeft(24, 4, Int32sl)", _v_int(-2 ** 31, 2 ** 31 - 1)),
+    ("ProcessRotateLeft(3, 2, Int16ub)", _v_int(0, 65535)), ("ProcessRotateLeft(12, 3, Bytes(6))", _v_bytes(6)), ("ProcessRotateLeft(-8, 3, Bytes(3))", _v_bytes(3)),
+    ("ProcessRotateLeft(this._params.a, this._params.g, Bytes(4))", _v_bytes(4)), ("ProcessXor(b'\\x01\\xfe\\x10', Struct('a'/Int16ub, 'b'/Bytes(3)))", _v_dict(a=_v_int(0, 65535), b=_v_bytes(3))),
+    ("Struct('h'/Byte, 'x'/Prefixed(Byte, ProcessXor(this._.h if False else this.h, Bytes(2))), 't'/Byte)", _v_dict(h=_v_int(0, 255), x=_v_bytes(2), t=_v_int(0, 255))),
+    # variable-size bit regions with a greedy tail that starts inside a byte
+    ("BitStruct('n'/Nibble, 'rest'/GreedyBytes)", _v_dict(n=_v_int(0, 15), rest=_v_bits([4, 12]))), ("Bitwise(Sequence(BitsInteger(3), Flag, GreedyRange(BitsInteger(4))))", None, 2),
+    ("BitStruct('a'/BitsInteger(6), 'tail'/GreedyRange(BitsInteger(5)))", None, 2),
+    # named tuples over sequences and structs, field order different from member order
+    ("NamedTuple('size', 'width height', Struct('height'/Int16ub, 'width'/Int16ub))", _v_dict(width=_v_int(0, 65535), height=_v_int(0, 65535))),
+    ("NamedTuple('pt', 'x y z', Sequence(Byte, Int16sl, VarInt))", _v_list(_v_int(0, 255), _v_int(-32768, 32767), _v_int(0, 2 ** 21 - 1))),
+    ("NamedTuple('pt', ['a', 'b'], Array(2, Int24ub))", _v_list(_v_int(0, 2 ** 24 - 1), _v_int(0, 2 ** 24 - 1))),
+    # look-alikes of the core fragment reached through less travelled classes
+    ("FocusedSeq('b', 'a'/Const(b'\\x07'), 'b'/Int16sb, 'c'/Const(b'\\x00\\x01'))", _v_int(-32768, 32767)), ("Slicing(Array(4, Byte), 4, 1, 3, empty=0)", _v_list(_v_int(0, 255), _v_int(0, 255))),
+    ("Indexing(Array(3, Int16ub), 3, 1, empty=0)", _v_int(0, 65535)), ("Struct('t'/Int8ub, 'u'/Union(0, 'raw'/Int16ub, 'lo'/Byte), 'e'/Byte)", None),
+    ("LazyBound(lambda: Int24ub)", _v_int(0, 2 ** 24 - 1)), ("Struct('n'/Byte, 'v'/LazyBound(lambda: Bytes(this.n & 3)))", None),
+    ("Transformed(Bytes(3), lambda b: b[::-1], 3, lambda b: b[::-1], 3)", _v_bytes(3)), ("Restreamed(Bytes(2), lambda b: bytes(reversed(b)), 2, lambda b: bytes(reversed(b)), 2, lambda n: n)", _v_bytes(2)),
+    ("StopIf(this._params.stop) >> Byte", None), ("Sequence('a'/Byte, StopIf(this.a == 0), 'b'/Byte)", None, 2),
+]
+
+
 def instances(tier, seed):
     specs = generate(tier, seed, depth2=150 if tier == "quick" else 1500) + [T(J(x)) for x in CURATED]
     out, seen = [], set()
@@ -59,6 +119,9 @@ def instances(tier, seed):
             continue
         seen.add(src(s))
         out.append(dict(name=src(s), params=dict(spec=J(s), tier=tier), expect=["ok"]))
+    for i, e in enumerate(EXTRA):
+        source, vb = e[0], e[1]
+        out.append(dict(name="extra  " + source, params=dict(extra=i, tier=tier), expect=["ok"]))
     return out
 
 
@@ -233,7 +296,51 @@ def payload_assumptions(ctx, s, v):
         pass
 
 
+def _extra(ctx, C, p):
+    e = EXTRA[p["extra"]]
+    source, vb, seedlen = e[0], e[1], (e[2] if len(e) > 2 else 4)
+    d = mk(C, source)
+    kw = {}
+    if "_params.a" in source:
+        kw = dict(a=ctx.int("kw.a", -40, 40), g=ctx.choice("kw.g", [1, 2, 4]))
+    if "_params.stop" in source:
+        kw = dict(stop=ctx.choice("kw.stop", [0, 1]))
+    if vb is None:
+        # the value is whatever parse returns for arbitrary input (then build must reproduce an encoding that parses to it)
+        data0 = ctx.bytes("seed", seedlen)
+        r0 = api.outcome(d.parse, data0, **kw)
+        if not r0.ok:
+            return "seed-reject"
+        v = r0.value
+    else:
+        v = vb(ctx)
+    vbuild = v
+    if "NamedTuple" in source and isinstance(v, dict):
+        import types
+        vbuild = types.SimpleNamespace(**v)          # NamedTuple over a Struct builds from any object with the fields as attributes
+    ctx.observe("value", v)
+    rb = api.outcome(d.build, vbuild, **kw)
+    ctx.check("build accepts the value (got %s)" % ("ok" if rb.ok else type(rb.exc).__name__ + ": " + str(rb.exc)[:60]), rb.ok)
+    st = ctx.stream(rb.value)
+    ro = api.outcome(d.parse_stream, st, **kw)
+    ctx.check("parse accepts what build produced", ro.ok)
+    obj = ro.value
+    want = v
+    if "NamedTuple" in source and isinstance(v, dict):
+        ctx.check("parsed named tuple carries every field under its own name", api.and_terms([ctx.eq(getattr(obj, k), x) for k, x in v.items()]))
+    elif "NamedTuple" in source:
+        ctx.check("parsed named tuple carries the fields in declaration order", ctx.eq(list(obj), list(v)))
+    else:
+        ctx.check("parsed object equals the value built", ctx.eq(obj, want))
+    ctx.check("parse consumes exactly the bytes build produced", st.tell() == len(rb.value))
+    rb2 = api.outcome(d.build, obj, **kw)
+    ctx.check("building the parsed object reproduces the bytes", rb2.ok and ctx.fork(ctx.eq(rb2.value, rb.value)))
+    return "ok"
+
+
 def harness(ctx, C, p):
+    if "extra" in p:
+        return _extra(ctx, C, p)
     spec = T(p["spec"])
     common.STRICT[0] = True
     try:
